@@ -28,6 +28,7 @@ import (
 	"github.com/MixinNetwork/mixin/config"
 	"github.com/MixinNetwork/mixin/crypto"
 	"github.com/MixinNetwork/mixin/kernel/internal"
+	"github.com/MixinNetwork/mixin/kernel/internal/clock"
 	"github.com/MixinNetwork/mixin/storage"
 	"github.com/dgraph-io/ristretto/v2"
 )
@@ -639,6 +640,46 @@ func (w *vmbWorld) queryValid(st vmbStep, seq int) vM {
 	return ev
 }
 
+// The kernel's clock mock is process-global. Ordinary steps of all worlds share vmbClockMu for
+// reading; a step that moves the clock holds it exclusively and resets the clock before releasing.
+var vmbClockMu sync.RWMutex
+
+var vmbValidationOffsetsHours = []int{0, 4, 8, 12, 17} // covers both window classes for every snapshot hour
+
+// acceptMatrix validates the accept of the pledging node at snapshot tick t on every replica while
+// the local clock (clock.MockDiff) stands at t + off hours, for finalized false and true. The
+// answer must depend on the snapshot timestamp only.
+func (w *vmbWorld) acceptMatrix(st vmbStep) []vM {
+	ts := w.real(st.T)
+	out := []vM{}
+	var pn *CNode
+	vCall(func() error { pn = w.replicas[0].node.PledgingNode(ts); return nil })
+	if pn == nil {
+		return out
+	}
+	defer clock.Reset()
+	for _, fin := range []bool{false, true} {
+		for _, off := range vmbValidationOffsetsHours {
+			clock.Reset()
+			target := ts + uint64(off)*uint64(time.Hour) + uint64(5*time.Second)
+			clock.MockDiff(time.Duration(int64(target) - time.Now().UnixNano()))
+			ress := []string{}
+			for _, rp := range w.replicas {
+				r, _ := vCall(func() error {
+					chain := rp.node.getOrCreateChain(pn.IdForNetwork)
+					if chain == nil {
+						return fmt.Errorf("no chain")
+					}
+					return chain.checkNodeAcceptPossibility(ts, fin)
+				})
+				ress = append(ress, r)
+			}
+			out = append(out, vM{"off": off, "fin": fin, "res": ress})
+		}
+	}
+	return out
+}
+
 // ---------------------------------------------------------------- C11
 // appendCustodian writes custodian update number k (>= 1) at the tick: a transaction with a
 // CustodianUpdateNodes output whose extra is a fully signed update (new custodian address, seven
@@ -784,6 +825,31 @@ func (w *vmbWorld) run(wc *vmbWorldCase, emit func(vM)) {
 	emit(vM{"ev": "Reset", "w": wc.Id, "gen": w.genesisRanks(), "pool": len(w.members),
 		"hist": w.observedHistory(w.replicas[0].node)})
 	for si, st := range wc.Steps {
+		if st.Op == "valid" {
+			var ev vM
+			func() {
+				vmbClockMu.RLock()
+				defer vmbClockMu.RUnlock()
+				ev = w.queryValid(st, si)
+			}()
+			func() {
+				vmbClockMu.Lock()
+				defer vmbClockMu.Unlock()
+				ev["acceptm"] = w.acceptMatrix(st)
+			}()
+			emit(ev)
+			continue
+		}
+		func() {
+			vmbClockMu.RLock()
+			defer vmbClockMu.RUnlock()
+			w.step(st, si, emit)
+		}()
+	}
+}
+
+func (w *vmbWorld) step(st vmbStep, si int, emit func(vM)) {
+	{
 		switch st.Op {
 		case "append":
 			m := w.member(st.Node)
@@ -812,8 +878,6 @@ func (w *vmbWorld) run(wc *vmbWorldCase, emit func(vM)) {
 			emit(w.queryElect(st))
 		case "hours":
 			emit(w.queryHours(st))
-		case "valid":
-			emit(w.queryValid(st, si))
 		default:
 			vmbFail("unknown step %q", st.Op)
 		}
@@ -856,7 +920,12 @@ func TestVerifMembership(t *testing.T) {
 						}
 					}()
 					wc := &cases.Worlds[wi]
-					w := vmbNewWorld(t, wc, fmt.Sprintf("vmb/%d/%s", seed, wc.Id))
+					var w *vmbWorld
+					func() {
+						vmbClockMu.RLock()
+						defer vmbClockMu.RUnlock()
+						w = vmbNewWorld(t, wc, fmt.Sprintf("vmb/%d/%s", seed, wc.Id))
+					}()
 					defer w.close()
 					w.run(wc, func(m vM) { out[wi] = append(out[wi], m) })
 				}()
